@@ -174,24 +174,9 @@ pub fn number_parse_int(
     args: &[JsValue],
 ) -> Result<Guarded, JsError> {
     let arg = args.first().cloned().unwrap_or(JsValue::Undefined);
-    let s = interp.to_js_string(&arg).to_string();
-    let radix = args.get(1).map(|v| v.to_number() as i32).unwrap_or(10);
-
-    let trimmed = s.trim_start();
-
-    // Handle radix
-    let radix = if radix == 0 {
-        10
-    } else if !(2..=36).contains(&radix) {
-        return Ok(Guarded::unguarded(JsValue::Number(f64::NAN)));
-    } else {
-        radix
-    };
-
-    let result = i64::from_str_radix(trimmed, radix as u32)
-        .map(|n| n as f64)
-        .unwrap_or(f64::NAN);
-
+    let s = interp.to_js_string(&arg);
+    let radix = args.get(1).map(|v| v.to_number()).unwrap_or(0.0);
+    let result = crate::value::parse_int_prefix(s.as_str(), radix);
     Ok(Guarded::unguarded(JsValue::Number(result)))
 }
 
